@@ -646,6 +646,10 @@ func (f *frame) unop(ins *ssa.UnOp) Val {
 			if v, ok := u.eng.globalValue(u, g.Global); ok {
 				return v
 			}
+			if isErrorType(g.Global.Type().(*types.Pointer).Elem()) && !u.eng.globalReassigned(g.Global) {
+				u.note("M5: package-level error variables are distinct non-nil constants (no store to them outside init; scanned)")
+				return u.eng.errConst(g.Global.Pkg.Pkg.Name() + "." + g.Global.Name())
+			}
 		}
 		v := u.define(f.key+"_"+ins.Name(), u.load(f.cur, p))
 		u.assumeLive(f.cur, v)
